@@ -18,7 +18,7 @@ RULE = ("lengths {1,2,3,9,10,11,25,60} x topic mix {own, alternating, foreign-he
 ASSUMPTIONS = ["Redis and RabbitMQ are wire-level fakes (RabbitMQ: FIFO per priority, requeue to original position)",
                "single priority per run (priority order is randomised by design on redis)", "messages deliverable at enqueue time (no delay)"]
 EVAL_COUNTER = "deliveries_judged"
-REQUIRED = ["deliveries_judged", "mode_all", "mode_steady", "mode_reject", "returns_judged", "long_backlogs", "stale_delay_messages"]
+REQUIRED = ["deliveries_judged", "mode_all", "mode_steady", "mode_reject", "returns_judged", "long_backlogs", "stale_delay_messages", "idle_polls_timed_out"]
 CASE_TIMEOUT = 120
 
 LENGTHS = [1, 2, 3, 9, 10, 11, 25, 60]
@@ -35,6 +35,8 @@ def gen_cases(tier, seed):
             short = [c for c in combos if c[0] < 9]
             rnd.shuffle(short)
             combos = [c for c in combos if c[0] >= 9] + short[:8]
+        # polls: the consumer is polled with a timeout on an empty queue (the call is cancelled while idle), bursts arrive later
+        combos += [(b, mix, "polls") for b in (2, 3, 7) for mix in (("own", "alt") if tier == "quick" else MIXES)]
         reps = 1 if tier == "quick" else 3
         for rep in range(reps):
             for n, mix, mode in combos:
@@ -96,8 +98,9 @@ async def scenario(loop, case, out, stats, fps, samples):
             seq += 1
             return id_
 
-        for _ in range(n):
-            await enq()
+        if mode != "polls":
+            for _ in range(n):
+                await enq()
         # a rabbit consumer with a topic filter and a small prefetch window can be blocked by foreign messages at the
         # head (see C11); FIFO is about what IS delivered, so give the consumer room there
         mu = case["mu"]
@@ -140,6 +143,24 @@ async def scenario(loop, case, out, stats, fps, samples):
                         await enq()  # something enqueued after the return
                 else:
                     await mb.ack(key)
+        elif mode == "polls":
+            stats["mode_polls"] += 1
+            for rnd_i in range(6):
+                # an idle poll that times out: consume() is cancelled while it waits on an empty queue
+                t_before = len(delivered)
+                key = await take()
+                if key is not None:
+                    await mb.ack(key)  # (a straggler of the previous burst)
+                else:
+                    stats["idle_polls_timed_out"] += 1
+                for _ in range(n):
+                    await enq()
+                await asyncio.sleep(0.05 + 4 * (case["latency"] or 0))  # the burst has arrived before the next call
+                while True:
+                    key = await take()
+                    if key is None:
+                        break
+                    await mb.ack(key)
         else:
             stats["mode_steady"] += 1
             for _ in range(120):
@@ -175,9 +196,9 @@ async def scenario(loop, case, out, stats, fps, samples):
         if undelivered and delivered:
             newest_delivered = max(order[x] for x in delivered)
             starving = [x for x in undelivered if order[x] < newest_delivered - (14 if mode == "steady" else 0)]
-            if starving and mode in ("steady", "all"):
+            if starving and mode in ("steady", "all", "polls"):
                 out.append(V("starved", kind, ctx, f"n={n}: {sorted(starving)[:5]} never delivered although messages up to #{newest_delivered} were; backlog kept non-empty"))
-        if mode == "all" and set(delivered) != own:
+        if mode in ("all", "polls") and set(delivered) != own:
             missing = sorted(own - set(delivered))[:5]
             if missing and not any(v["rule"] == "starved" for v in out):
                 out.append(V("starved", kind, ctx, f"consume-all left {missing} undelivered"))
